@@ -9,7 +9,8 @@ EXPLANATION = ("Structural necessary conditions decided on the resolved program:
                "tag literal the 30 message types use, is collision free (K2); nothing ever removes from the "
                "consumed set and lookup returns the first unconsumed stamp (K3); every path through the "
                "distribution loop of split_into_sequences performs exactly one push (path enumeration, K4); every "
-               "lookup, reservation and marking of the consumed set uses the key of the entry in hand (K5). "
+               "lookup, reservation and marking of the consumed set uses the key of the entry in hand (K5); the key by "
+               "which option-letter candidates are ordered consults the consumed set (K6). "
                "Exactness of the tokeniser on arbitrary text is a string-algorithm property and is not decided.")
 ASSUMPTIONS = ["tag literals of the typed parsers are the tags that occur in messages of each type"]
 
@@ -22,6 +23,7 @@ def run(F, tier):
     tokeniser.k3(rep, F)
     r = tokeniser.k4(rep, F)
     tokeniser.k5(rep, F)
+    tokeniser.k6(rep, F)
     rep.sample({"K4_push_counts_over_paths": r.get("paths")})
     rep.sample({"K2_keep_list": rep.rules.get("K2", {}).get("keep_list")})
     accept.u6(rep, F, "tokeniser")
